@@ -61,9 +61,9 @@ def multiple_of(body, bb, e, c, depth=0):
     e = peel(e, through_try=False)
     if depth > 8 or e is None:
         return False
-    same_c = lambda x: (peel(x, through_try=False).k == "const" and peel(c, through_try=False).k == "const"
-                        and peel(x, through_try=False).v == peel(c, through_try=False).v) or same_expr(x, c)
-    cv = peel(c, through_try=False).v if peel(c, through_try=False).k == "const" else None
+    _ci = c09._const_int            # also reads `size_of::<i16>()` as the constant 2
+    same_c = lambda x: (_ci(x) is not None and _ci(x) == _ci(c)) or same_expr(x, c)
+    cv = _ci(c)
     if e.k == "const" and cv:
         return isinstance(e.v, int) and e.v % cv == 0
     if e.k == "bin":
@@ -910,6 +910,8 @@ def rule_r14(facts, col, rule_id="C08.R14"):
             for pbb, pt in body.calls_to(effects.PRODUCE):
                 if _wb_of(body.operand_expr(pt["args"][0])) != w or len(pt["args"]) < 2:
                     continue
+                if pbb not in body.reachable(fbb):
+                    continue      # a commit on another path (the header phase of AuEncode returns before the framed copy)
                 key = "%s:frames#%d" % (body0.q, k)
                 k += 1
                 n = body.operand_expr(pt["args"][1])
